@@ -142,6 +142,11 @@ func (v *Vue) evalElseIfChain(ctx VueContext, node *html.Node, nodes []*html.Nod
 	return result, lastChainNodeIdx, nil
 }
 
+// isChainBranch reports whether node is a branch of a conditional chain.
+func isChainBranch(node *html.Node) bool {
+	return helpers.HasAttr(node, "v-if") || helpers.HasAttr(node, "v-else-if") || helpers.HasAttr(node, "v-else")
+}
+
 // evaluateNodeAsElement evaluates a single element node with its v-for and other directives.
 // This is used internally by the else-if chain handler.
 func (v *Vue) evaluateNodeAsElement(ctx VueContext, node *html.Node, depth int) ([]*html.Node, error) {
@@ -156,6 +161,16 @@ func (v *Vue) evaluateNodeAsElement(ctx VueContext, node *html.Node, depth int) 
 
 		result = append(result, loopNodes...)
 		return result, nil
+	}
+
+	// The selected branch of a chain is where its v-once check happens:
+	// the first instantiation that selects it emits it, later ones skip it.
+	if helpers.HasAttr(node, "v-once") && isChainBranch(node) {
+		vSeenID := helpers.GetAttr(node, "v-once-id")
+		if ctx.seen[vSeenID] {
+			return result, nil
+		}
+		ctx.seen[vSeenID] = true
 	}
 
 	// Special handling for template tags: evaluate bound attributes and set them in current scope
